@@ -122,7 +122,8 @@ func c01Stream(t *fw.T) {
 	if r.Intn(20) == 0 {
 		maxLen = 65536
 	}
-	data := gen.Hostile(r, li.corpus, li.dict, maxLen)
+	_ = li
+	data := hostileInput(r, ep.lang, maxLen)
 	ctor := gen.Pick(r, inputCtors)
 	t.Desc(&c01Case{Entry: ep.name, Ctor: ctor, Data: data})
 	in, backing := mkInput(r, data, ctor)
@@ -191,9 +192,10 @@ func c01JSParse(t *fw.T) {
 	var data []byte
 	if r.Intn(3) == 0 {
 		// JSON-looking expressions reach the JSON converters
-		data = gen.Hostile(r, langs["json"].corpus, langs["json"].dict, maxLen)
+		data = hostileInput(r, "json", maxLen)
 	} else {
-		data = gen.Hostile(r, li.corpus, li.dict, maxLen)
+		_ = li
+		data = hostileInput(r, "js", maxLen)
 	}
 	o := jsOptions[r.Intn(4)]
 	ctor := gen.Pick(r, inputCtors)
